@@ -5,6 +5,7 @@ import (
 	"encoding/binary"
 	"fmt"
 	"net"
+	"os"
 	"strings"
 	"sync"
 	"time"
@@ -110,6 +111,16 @@ func (p *probeRT) rng() *simnet.Rng {
 	return simnet.NewRng(p.w.Spec.Seed^p.p.Seed, fmt.Sprintf("probe-%d", p.idx))
 }
 
+// pollEvery: every probe polls with its own period, so that hundreds of probes never wake at
+// the same virtual instant (the order in which the runtime runs a herd of goroutines released
+// at one instant is not worth making part of the replay contract).
+func (p *probeRT) pollEvery() time.Duration {
+	if os.Getenv("VSIM_NOSTAGGER") != "" {
+		return 5 * time.Millisecond
+	}
+	return 5*time.Millisecond + time.Duration(p.idx+1)*time.Microsecond
+}
+
 func (p *probeRT) waitStart() {
 	if d := time.Duration(p.p.AtUs)*time.Microsecond - time.Since(p.w.start); d > 0 {
 		time.Sleep(d)
@@ -132,7 +143,7 @@ func (p *probeRT) sourceStream(done chan struct{}) ([]byte, []spec.SegGeo) {
 		case <-done:
 			b, g := w.Tap.streamOfClient(p.p.Source)
 			return b, g
-		case <-time.After(5 * time.Millisecond):
+		case <-time.After(p.pollEvery()):
 		}
 	}
 	return nil, nil
@@ -152,7 +163,7 @@ func (p *probeRT) sourceDatagrams(done chan struct{}) [][]byte {
 		select {
 		case <-done:
 			return w.Tap.datagramsOfClient(p.p.Source)
-		case <-time.After(5 * time.Millisecond):
+		case <-time.After(p.pollEvery()):
 		}
 	}
 	return nil
@@ -198,7 +209,7 @@ func (p *probeRT) run(done chan struct{}) {
 					select {
 					case <-done:
 						i = 4000
-					case <-time.After(5 * time.Millisecond):
+					case <-time.After(p.pollEvery()):
 					}
 				}
 			}
@@ -229,6 +240,17 @@ func (p *probeRT) run(done chan struct{}) {
 			first = ds[0]
 		}
 		first = append([]byte(nil), first...)
+		if pr.AfterEnd && pr.AfterEndDelayUs > 0 {
+			// (the scenario waits for its probes, so the run lasts as long as this takes)
+			if os.Getenv("VSIM_NOSTAGGER") != "" {
+				select {
+				case <-done:
+				case <-time.After(time.Duration(pr.AfterEndDelayUs) * time.Microsecond):
+				}
+			} else {
+				time.Sleep(time.Duration(pr.AfterEndDelayUs)*time.Microsecond + time.Duration(p.idx)*time.Microsecond)
+			}
+		}
 		switch pr.Kind {
 		case "prefix", "trunc":
 			k := pr.Arg
@@ -241,6 +263,9 @@ func (p *probeRT) run(done chan struct{}) {
 			first = first[:k]
 		case "bitflip":
 			bit := pr.Arg % (len(first) * 8)
+			if pr.Arg < 0 {
+				bit = len(first)*8 - 1 - (-pr.Arg-1)%(len(first)*8) // counted from the last bit
+			}
 			first[bit/8] ^= 1 << (bit % 8)
 		}
 		payloads = [][]byte{first}
